@@ -192,13 +192,16 @@ impl<'a> StmtIterator<'a> {
                         .unwrap()
                         .value()
                         .expect("Expected an integer value");
-                    let value = prev_value + 1;
-                    if value < loop_state.max {
-                        ctx.set(loop_state.variable, value);
-                        self.inner_state = StmtIteratorState::StartIterateInner(loop_state.take());
-                    } else {
-                        ctx.pop_frame();
-                        self.inner_state = StmtIteratorState::Iterate;
+                    match prev_value.checked_add(1) {
+                        Some(value) if value < loop_state.max => {
+                            ctx.set(loop_state.variable, value);
+                            self.inner_state =
+                                StmtIteratorState::StartIterateInner(loop_state.take());
+                        }
+                        _ => {
+                            ctx.pop_frame();
+                            self.inner_state = StmtIteratorState::Iterate;
+                        }
                     }
                 }
                 StmtIteratorState::StartWhile(while_state) => {
